@@ -157,6 +157,18 @@ CLAIMS = {
             TB + "; ECC plug-in by contract in the L1 part; Bec2File.unpack_auth_blocks on a symbolic TLV is proved in the "
                  "thorough tier only (path count); termination on unstructured input by time limit",
             "deductive: AST->VC raise-set analysis (every path Return/Raise(type)), z3; bounded mutation corpus underneath"),
+    "C17": ("proof",
+            "field mode: the real Jacobian formula functions (_double_with_z_1, _double, _add_with_z_1, _add_with_z_eq, "
+            "_add_with_z2_1, _add_with_z_ne; the dispatcher _add in the thorough tier) are executed over polynomial proxies; "
+            "every path, including the paths on which an UNREDUCED tested value is a non-zero multiple of p, must satisfy "
+            "aff(result) = aff(P) (+) aff(Q) (chord / tangent / infinity) as Groebner-basis ideal membership under the curve "
+            "equations and branch hypotheses.  Scalar multiplication (NAF, precomputed table), mul_add, affine Point "
+            "arithmetic, ==, scale, ECDH symmetry and public-point validation: complete enumeration on small prime-order "
+            "curves and all 17 shipped curves at edge scalars (bounded).  Agreement with the OpenSSL binary: not a contract",
+            "DESIGN.md section 9 C17",
+            "pyvc/field.py + sympy 1.14 (Groebner, reduction over Q); p an odd prime exceeding the formula constants; odd "
+            "group order (infinity encoded as y = 0); scalar-multiplication loops bounded only",
+            "deductive: polynomial-identity VCs from the real code per path, sympy ideal membership; bounded enumeration"),
 }
 
 NA_DEFAULT = "check not built yet (construction in progress, see DESIGN.md section 14)"
